@@ -99,6 +99,9 @@ def _match_display_names_exact(
     for prop in importable_props:
         if prop in display_name_to_key:
             feature_key, idx = display_name_to_key[prop]
+            # Never overwrite a key that is already mapped: the property stays unmatched
+            if feature_key in mapping:
+                continue
             # Check if this is a multi-value feature (has other indices)
             is_multi_value = any(
                 k == feature_key and i != idx for _, (k, i) in display_name_to_key.items()
@@ -106,6 +109,8 @@ def _match_display_names_exact(
             if is_multi_value:
                 if feature_key not in multi_value_matches:
                     multi_value_matches[feature_key] = {}
+                if idx in multi_value_matches[feature_key]:
+                    continue
                 multi_value_matches[feature_key][idx] = prop
             else:
                 # Single-value feature
@@ -168,6 +173,9 @@ def _match_display_names_fuzzy(
 
         if closest:
             _, feature_key, idx = lower_display_map[closest[0]]
+            # Never overwrite a key that is already mapped: the property stays unmatched
+            if feature_key in mapping:
+                continue
             # Check if this is a multi-value feature
             is_multi_value = any(
                 k == feature_key and i != idx for _, (k, i) in display_name_to_key.items()
@@ -175,6 +183,8 @@ def _match_display_names_fuzzy(
             if is_multi_value:
                 if feature_key not in multi_value_matches:
                     multi_value_matches[feature_key] = {}
+                if idx in multi_value_matches[feature_key]:
+                    continue
                 multi_value_matches[feature_key][idx] = prop
             else:
                 mapping[feature_key] = prop
@@ -304,6 +314,10 @@ def infer_node_name_map(
 
     # Step 2: Fuzzy matches for remaining standard fields
     props_left = _match_fuzzy(standard_fields, props_left, mapping)
+
+    # A property spelled exactly like a feature key is that feature (otherwise it would
+    # collide with the key when it is mapped to itself as a custom property below)
+    props_left = _match_exact(list(node_features.keys()), props_left, mapping)
 
     # Step 3: Exact matches with feature display names
     props_left = _match_display_names_exact(props_left, display_name_to_key, mapping)
